@@ -1,0 +1,85 @@
+//go:build verif
+// +build verif
+
+package keystore
+
+import "sort"
+
+// Read-only accessors for the verification harness (/verif). Compiled only with -tags verif.
+
+type VerifAddr struct {
+	Address string
+	Branch  uint32
+	Index   uint32
+	PubKey  []byte
+	HasPriv bool
+}
+
+type VerifKeystore struct {
+	Name              string
+	Remark            string
+	Unlocked          bool
+	NextExternal      uint32
+	NextInternal      uint32
+	MasterPrivUsable  bool // the in-memory master private key decrypts the private crypto key
+	MasterPrivNonZero bool
+	CryptoPrivNonZero bool
+	PassHashNonZero   bool
+	AcctPriv          bool
+	BranchPriv        bool
+	Addrs             []VerifAddr
+}
+
+func verifNonZero(b []byte) bool {
+	for _, x := range b {
+		if x != 0 {
+			return true
+		}
+	}
+	return false
+}
+
+// VerifDump returns the canonical observable state of every managed keystore.
+func (kmc *KeystoreManagerForPoC) VerifDump() (unlocked bool, out []VerifKeystore) {
+	kmc.mu.Lock()
+	defer kmc.mu.Unlock()
+	for _, a := range kmc.managedKeystores {
+		a.mu.Lock()
+		k := VerifKeystore{
+			Name:         a.keystoreName,
+			Remark:       a.remark,
+			Unlocked:     a.unlocked,
+			NextExternal: a.branchInfo.nextExternalIndex,
+			NextInternal: a.branchInfo.nextInternalIndex,
+			AcctPriv:     a.acctInfo.acctKeyPriv != nil,
+			BranchPriv:   a.branchInfo.externalBranchPriv != nil || a.branchInfo.internalBranchPriv != nil,
+		}
+		if a.masterKeyPriv != nil {
+			k.MasterPrivNonZero = verifNonZero(a.masterKeyPriv.Key[:])
+			if _, err := a.masterKeyPriv.Decrypt(a.cryptoKeyPrivEncrypted); err == nil {
+				k.MasterPrivUsable = true
+			}
+		}
+		if a.cryptoKeyPriv != nil {
+			k.CryptoPrivNonZero = verifNonZero(a.cryptoKeyPriv.Bytes())
+		}
+		k.PassHashNonZero = verifNonZero(a.hashedPrivPassphrase[:])
+		for _, m := range a.addrs {
+			k.Addrs = append(k.Addrs, VerifAddr{Address: m.address, Branch: m.derivationPath.Branch, Index: m.derivationPath.Index,
+				PubKey: m.pubKey.SerializeCompressed(), HasPriv: m.privKey != nil})
+		}
+		sort.Slice(k.Addrs, func(i, j int) bool {
+			if k.Addrs[i].Branch != k.Addrs[j].Branch {
+				return k.Addrs[i].Branch < k.Addrs[j].Branch
+			}
+			if k.Addrs[i].Index != k.Addrs[j].Index {
+				return k.Addrs[i].Index < k.Addrs[j].Index
+			}
+			return k.Addrs[i].Address < k.Addrs[j].Address
+		})
+		a.mu.Unlock()
+		out = append(out, k)
+	}
+	sort.Slice(out, func(i, j int) bool { return out[i].Name < out[j].Name })
+	return kmc.unlocked, out
+}
